@@ -22,6 +22,7 @@ import SwcVerif.Model.AlgoRunPopulation
 import SwcVerif.Model.AlgoRunNormalizer
 import SwcVerif.Model.AlgoRunBranches
 import SwcVerif.Model.AlgoRunRedirect
+import SwcVerif.Model.AlgoRunAssemble
 import SwcVerif.Model.Assemble
 
 def dispatch (op : String) (args : List String) : String :=
@@ -64,6 +65,7 @@ def dispatch (op : String) (args : List String) : String :=
   | "gchain" => AlgoRun.handleChain args
   | "gredirect" => AlgoRun.handleRedirect args
   | "asm" => Asm.handle args
+  | "gasm" => AlgoRun.handleAsm args
   | "swcline" => SwcText.handleLine args
   | "swcread" => SwcText.handleRead args
   | "swcwrite" => SwcText.handleWrite args
